@@ -29,6 +29,8 @@ def lit_to_facts(lit):
         # isnot a set of values
         names = [_variant_name(variants, v) for v in val]
         rest = [n for n, _ in variants if n not in names]
+        if variants and not rest:
+            return [(("false",), True)]   # `otherwise` edge of an exhaustive match: unreachable
         if len(rest) == 1:
             return [(("variant", x, rest[0]), True)]
         return [(("variant", x, n), False) for n in names if n is not None]
